@@ -27,6 +27,7 @@ COQ = os.path.join(ROOT, "coq")
 FORBIDDEN = re.compile(
     r"\b(Admitted|admit|Axiom|Axioms|Parameter|Parameters|Conjecture|Hypothesis|Variable|Variables)\b"
     r"|Unset\s+Guard|bypass_check|type-in-type|impredicative-set|Admit\s+Obligations"
+    r"|\b\w*_no_check\b|\bnative_compute\b"
 )
 
 
@@ -195,6 +196,23 @@ def coq_step(pid, log, thorough=False):
     axioms = sorted({a for b in blocks for a in b})
     res["assumption_blocks"] = len(blocks)
     res["assumptions"] = axioms
+    tsrc = os.path.join(COQ, "Props", f"{pid}_thorough.v")
+    if thorough and res["ok"] and os.path.exists(tsrc):
+        # thorough-only theorems (long vm_compute): Props/<pid>_thorough.v is not part of the normal build
+        ttext = re.sub(r"\(\*.*?\*\)", " ", open(tsrc).read(), flags=re.S)
+        tnames = re.findall(r"^\s*(?:Theorem|Example)\s+(\w+)", ttext, flags=re.M)
+        with tempfile.TemporaryDirectory(prefix="gvcoq") as td:
+            t0 = time.time()
+            p3 = subprocess.run(["timeout", "3000", "coqc", "-Q", COQ, "GV", "-o", os.path.join(td, f"{pid}_thorough.vo"), tsrc],
+                                capture_output=True, text=True, cwd=td)
+            log(f"coq thorough step: rc={p3.returncode} {time.time()-t0:.1f}s theorems={len(tnames)}")
+            res["output"] += (p3.stdout + p3.stderr)[-3000:]
+            if p3.returncode == 0:
+                res["theorems"] += tnames
+                if "Axioms:" in p3.stdout:
+                    res["assumptions"] = sorted(set(res["assumptions"]) | {f"(axioms printed by Props/{pid}_thorough.v)"})
+            else:
+                res["ok"] = False
     if thorough and res["ok"]:
         # independent re-check of the property file's whole cone with coqchk
         t0 = time.time()
